@@ -777,11 +777,13 @@ class Result(JsonSerializable):
                     r.update(i)
 
         else:
-            r = Result.create(name=d['name'],
-                              update_type=d['update_type_code'],
-                              value=d['value'],
-                              total=d['total'],
-                              accumulate_values=d['accumulate_values_bool'])
+            # Set the stored fields directly: replaying an update would
+            # divide by zero for a RATIOTYPE result that was never updated
+            r = Result(name=d['name'],
+                       update_type_code=d['update_type_code'],
+                       accumulate_values=d['accumulate_values_bool'])
+            r._value = d['value']
+            r._total = d['total']
             r._value_list = d['value_list']
             r._total_list = d['total_list']
             r.num_updates = d['num_updates']
